@@ -22,13 +22,13 @@ from .c08 import may_raise
 
 
 def check(repo: Repo, R) -> None:
-    snapshot(repo, R)
-    io_choice(repo, R)
-    freeze(repo, R)
-    id_keyed_caches(repo, R)
-    cache_ownership(repo, R)
+    R.run(snapshot, repo, R)
+    R.run(io_choice, repo, R)
+    R.run(freeze, repo, R)
+    R.run(id_keyed_caches, repo, R)
+    R.run(cache_ownership, repo, R)
     from . import c08
-    c08.check(repo, shared.Retag(R, lambda r: "C07.6-failed-visit-never-revisited" if r.startswith("C08.3") else None,
+    R.run(c08.check, repo, shared.Retag(R, lambda r: "C07.6-failed-visit-never-revisited" if r.startswith("C08.3") else None,
                                  "elaborating the same module again after a failed visit gives another result than the first call (the half-rewritten module passes)"))
     # the export entry point elaborates whatever it is given, on every call (elaboration itself is what decides
     # "already done", per module); it never looks at marks left by earlier calls to skip it
@@ -43,10 +43,10 @@ def check(repo: Repo, R) -> None:
     R.check(ok, "C07.7-export-elaborates-every-call", key_of(ft), ft.site, f"to_proto elaborates its argument unconditionally and exports exactly what elaboration returned: {ok}",
             why="exporting a list that mixes already elaborated and fresh modules hands un-elaborated modules to the exporter (arrays dropped, bundles refused), depending on which calls came before")
     c02_ = __import__("hsa.rules.c02", fromlist=["x"])
-    c02_.live_passes(repo, shared.Retag(R, lambda r, k: "C07.7-export-elaborates-every-call" if k.endswith("Elaborator.elaborate") else None,
+    R.run(c02_.live_passes, repo, shared.Retag(R, lambda r, k: "C07.7-export-elaborates-every-call" if k.endswith("Elaborator.elaborate") else None,
                                         "the result of elaborating a design depends on whether an earlier call already touched it"))
     c18_ = __import__("hsa.rules.c18", fromlist=["x"])
-    c18_.check(repo, shared.Retag(R, lambda r: "C07.3-freeze" if r.startswith("C18.7") else None,
+    R.run(c18_.check, repo, shared.Retag(R, lambda r: "C07.3-freeze" if r.startswith("C18.7") else None,
                                    "a definition that was elaborated accepts additions: parents elaborated earlier and later disagree about its ports"))
     R.floor("C07.1-snapshot-before-flattening", 2)
     R.floor("C07.2-bundled-vs-flattened-io", 2)
